@@ -124,6 +124,23 @@ pub fn cov_queries(quick: bool) -> Vec<Cov> {
       }
     }
   }
+  // larger depths: coverages with hundreds to tens of thousands of cells (all views expanded
+  // below 200000 deepest cells)
+  let deep: &[u8] = if quick { &[7, 10] } else { &[7, 9, 10, 12, 14] };
+  for &d in deep {
+    let cell = PI / 3.0f64.sqrt() / (1u64 << d) as f64;
+    for &(lon, lat) in &[(0.1234, 0.2345), (1.0, 1.2), (0.0, -1.1596584644725487), (5.5, -0.4)] {
+      for &k in &[0.4, 5.0, 40.0] {
+        for delta in [0u8, 2] {
+          v.push(Cov::Cone { depth: d, delta, lon, lat, r: k * cell });
+        }
+        v.push(Cov::Ell { depth: d, delta: 0, lon, lat, a: k * cell, b: 0.3 * k * cell, pa: 1.1 });
+        if lat.abs() < 1.0 {
+          v.push(Cov::Poly { depth: d, exact: true, vertices: make_polygon(lon, lat, 5, k * cell, 1.0, 0.2, false) });
+        }
+      }
+    }
+  }
   v
 }
 
